@@ -48,3 +48,87 @@ fn snapshot_never_sees_half_a_batch_while_a_flush_completes() -> fjall::Result<(
     assert_eq!(a, b, "the snapshot saw the batch half applied: a={:?} b={:?}", a.as_deref().map(String::from_utf8_lossy), b.as_deref().map(String::from_utf8_lossy));
     Ok(())
 }
+
+fn torn_by(version_change: impl FnOnce(&Database, &fjall::Keyspace) -> fjall::Result<()>) -> fjall::Result<(Option<Vec<u8>>, Option<Vec<u8>>)> {
+    let folder = tempfile::tempdir()?;
+    let db = Database::builder(&folder).worker_threads_unchecked(0).open()?;
+    let ks = db.keyspace("default", KeyspaceCreateOptions::default)?;
+    let other = db.keyspace("other", KeyspaceCreateOptions::default)?;
+    ks.insert("a", "old")?;
+    ks.insert("b", "old")?;
+    // two tables in `other`, so that a compaction has something to do
+    for round in 0..2 {
+        other.insert(format!("x{round}"), "1")?;
+        assert!(other.tree.rotate_memtable().is_some());
+        let lock = other.tree.get_flush_lock();
+        other.tree.flush(&lock, 0)?;
+    }
+    let batch_seqno = db.supervisor.seqno.next();
+    ks.tree.insert("a", "new", batch_seqno);
+    version_change(&db, &other)?;
+    let snapshot = db.snapshot();
+    let a = snapshot.get(&ks, "a")?.map(|v| v.to_vec());
+    let b = snapshot.get(&ks, "b")?.map(|v| v.to_vec());
+    ks.tree.insert("b", "new", batch_seqno);
+    db.supervisor.snapshot_tracker.publish(batch_seqno);
+    Ok((a, b))
+}
+
+// the public API Keyspace::major_compact, called by a user thread while another thread's batch is in flight
+#[test]
+fn snapshot_never_sees_half_a_batch_while_major_compact_completes() -> fjall::Result<()> {
+    let (a, b) = torn_by(|_db, other| other.major_compact())?;
+    assert_eq!(a, b, "the snapshot saw the batch half applied (a={a:?} b={b:?})");
+    Ok(())
+}
+
+// what compaction::worker::run does for a Compact message (no journal lock either)
+#[test]
+fn snapshot_never_sees_half_a_batch_while_a_compaction_completes() -> fjall::Result<()> {
+    let (a, b) = torn_by(|db, other| {
+        let strategy = std::sync::Arc::new(fjall::compaction::Leveled::default().with_l0_threshold(2));
+        other.tree.compact(strategy, db.supervisor.snapshot_tracker.get_seqno_safe_to_gc())?;
+        Ok(())
+    })?;
+    assert_eq!(a, b, "the snapshot saw the batch half applied (a={a:?} b={b:?})");
+    Ok(())
+}
+
+// Creating or deleting a keyspace writes the meta keyspace through an lsm-tree ingestion (and compacts it): new tree
+// versions again. They take keyspaces.write, which a batch only excludes from the moment it has taken keyspaces.read —
+// AFTER it drew its seqno. So: batch draws its seqno; another thread creates/deletes a keyspace (visible counter jumps
+// past the batch); a snapshot is opened; the batch applies item by item: the "frozen" snapshot changes under the reader.
+fn torn_snapshot_by(meta_op: impl FnOnce(&Database) -> fjall::Result<()>) -> fjall::Result<(Option<Vec<u8>>, Option<Vec<u8>>)> {
+    let folder = tempfile::tempdir()?;
+    let db = Database::builder(&folder).worker_threads_unchecked(0).open()?;
+    let ks = db.keyspace("default", KeyspaceCreateOptions::default)?;
+    let _victim = db.keyspace("victim", KeyspaceCreateOptions::default)?;
+    ks.insert("a", "old")?;
+    ks.insert("b", "old")?;
+    let batch_seqno = db.supervisor.seqno.next(); // WriteBatch::commit: seqno drawn under the journal lock ...
+    meta_op(&db)?; // ... another thread creates / deletes a keyspace before the batch takes keyspaces.read
+    let snapshot = db.snapshot();
+    ks.tree.insert("a", "new", batch_seqno); // ... the batch applies its first item
+    let a = snapshot.get(&ks, "a")?.map(|v| v.to_vec());
+    let b = snapshot.get(&ks, "b")?.map(|v| v.to_vec());
+    ks.tree.insert("b", "new", batch_seqno);
+    db.supervisor.snapshot_tracker.publish(batch_seqno);
+    Ok((a, b))
+}
+
+#[test]
+fn snapshot_never_sees_half_a_batch_while_a_keyspace_is_created() -> fjall::Result<()> {
+    let (a, b) = torn_snapshot_by(|db| db.keyspace("brand_new", KeyspaceCreateOptions::default).map(|_| ()))?;
+    assert_eq!(a, b, "the snapshot saw the batch half applied (a={a:?} b={b:?})");
+    Ok(())
+}
+
+#[test]
+fn snapshot_never_sees_half_a_batch_while_a_keyspace_is_deleted() -> fjall::Result<()> {
+    let (a, b) = torn_snapshot_by(|db| {
+        let v = db.keyspace("victim", KeyspaceCreateOptions::default)?;
+        db.delete_keyspace(v)
+    })?;
+    assert_eq!(a, b, "the snapshot saw the batch half applied (a={a:?} b={b:?})");
+    Ok(())
+}
